@@ -277,9 +277,9 @@ func c18Case(c *Ctx, g *c18gen, top []byte, t *stree, version uint64, nowrap boo
 			// a file of at most one chunk is a single raw block: the root has the raw codec and
 			// `car extract` skips raw roots
 			roots = VL{VL{VT("raw")}}
-			dst = VL{VT("skip")}
+			dst = VL{VT("skip"), outP}
 		default:
-			dst = VL{VT("skip")}
+			dst = VL{VT("skip"), outP}
 		}
 	} else {
 		roots = VL{VL{VT("n"), VL{VT("d"), VL{VL{VB(top), u}}}}}
